@@ -108,6 +108,7 @@ static Step reloadStep(int64_t id, const FaultSpec &f = FaultSpec()) {
 }
 static std::string pickSource(Rng &r, bool allowVicon) {
     unsigned k = static_cast<unsigned>(r.below(100));
+    if (k == 99) return "missing"; // the path does not exist: the load throws, the history goes on without an object
     if (k < 3) return std::string("vendor:") + VENDORS[r.below(allowVicon && r.chance(1, 4) ? 4 : 3)];
     return "gen:" + tos(r.next() >> 1);
 }
